@@ -197,7 +197,9 @@ namespace cnl {
             template<typename Rhs>
             [[nodiscard]] constexpr auto operator()(Rhs const& rhs) const
             {
-                return has_most_negative_number<Rhs>::value && rhs < -std::numeric_limits<Rhs>::max();
+                // the result of unary minus has the promoted type: -int8_t(-128) is int(128)
+                using traits = operator_overflow_traits<minus_op, Rhs>;
+                return has_most_negative_number<typename traits::result>::value && rhs < -traits::max();
             }
         };
 
@@ -206,7 +208,9 @@ namespace cnl {
             template<typename Rhs>
             [[nodiscard]] constexpr auto operator()(Rhs const& rhs) const
             {
-                return !numbers::signedness_v<Rhs> && rhs;
+                // the result of unary minus has the promoted type: -uint8_t(1) is int(-1)
+                using traits = operator_overflow_traits<minus_op, Rhs>;
+                return !numbers::signedness_v<typename traits::result> && rhs;
             }
         };
 #if defined(_MSC_VER)
